@@ -73,6 +73,14 @@ def _run(cs, tier, run_index, M):
         games.insert(ss.draw(len(games)), (sp, sv, sm))
         res.probe("serial_game_before_pool_game")
 
+    # constructor families that reach the pool branch (own stream: the other games of the run are unchanged):
+    # a 2-fold product game of a base game with >= 3 answers per player, and a binary-constraint game over
+    # 10..11 variables (Bob's 2**n bit assignments are the enumerated side)
+    if run_index % 8 == 6:
+        games.append(draw_product_pool_game(cs.s("xgame")))
+    elif run_index % 8 == 7:
+        games.append(draw_bcs_pool_game(cs.s("xgame")))
+
     fault = None
     if fault_run:
         fs = cs.s("fault")
@@ -99,7 +107,15 @@ def _run(cs, tier, run_index, M):
             if meta["shape"][0] != meta["shape"][1]:
                 res.probe("unequal_alphabets")
             expected.append(models.classical_value_bf_vec(prob, pred))
-            objs.append((M.NonlocalGame(prob, pred), prob.copy(), pred.copy()))
+            if "_ctor" in meta:
+                built = build_constructed(M, res, prob, pred, meta)
+                if built is None:
+                    break
+                objs.append(built)
+                prob, pred = built[1], built[2]
+                games[gi] = (prob, pred, meta)
+            else:
+                objs.append((M.NonlocalGame(prob, pred), prob.copy(), pred.copy()))
         game, prob0, pred0 = objs[gi]
         chunks_before = sim.chunks
         outcome = call(M, game, sim)
@@ -156,6 +172,104 @@ def _run(cs, tier, run_index, M):
     res.interleaving = "%016x" % mix(sim.max_workers, tuple(sim.completion_order))
     res.sample = {"games": [{k: v for k, v in g[2].items() if not k.startswith("_")} for g in games], "call_order": order, "workers": sim.max_workers, "chunks": sim.chunks, "completion_order_head": sim.completion_order[:16], "stall_permille": sim.stall_permille, "fault_population": fault_run, "values": [repr(o[1])[:24] for o in outcomes], "models": expected}
     return res
+
+
+PRODUCT_BASES = [(3, 3, 2, 2), (3, 4, 2, 2), (4, 3, 2, 2), (3, 3, 2, 3), (3, 3, 3, 2), (5, 3, 2, 2), (3, 5, 2, 2)]
+
+
+def draw_product_pool_game(st):
+    """NonlocalGame(prob, pred, reps=2) whose product game has 6561 strategies on the enumerated side."""
+    shape = PRODUCT_BASES[st.draw(len(PRODUCT_BASES))]
+    a_out, b_out, a_in, b_in = shape
+    rng = st.nprng()
+    kind = st.weighted([("planted", 3), ("binary", 2), ("fractional", 2)])
+    if kind == "binary":
+        pred = (rng.random(shape) < 0.45).astype(float)
+    elif kind == "fractional":
+        pred = rng.random(shape)
+    else:
+        # the product of a planted base optimum is an optimum of the product game; its position in the
+        # product enumeration is a mixed-radix interleaving of the base positions
+        f, g = rng.integers(0, a_out, size=a_in), rng.integers(0, b_out, size=b_in)
+        if st.draw(2):
+            f[:] = a_out - 1
+            g[:] = b_out - 1  # last strategy of the product enumeration
+        pred = rng.random(shape) * 0.35 * (rng.random(shape) < 0.6)
+        for x in range(a_in):
+            for y in range(b_in):
+                pred[f[x], g[y], x, y] = 1.0
+    prob = rng.random((a_in, b_in)) ** (1 + st.draw(2)) + (0.0 if st.draw(3) == 0 else 0.02)
+    prob = prob / prob.sum()
+    pred, dt = maybe_integer_dtype(st, pred, 4)
+    reps = np.int64(2) if st.draw(4) == 0 else 2
+    eprob, epred = models.product_game(prob, np.asarray(pred, dtype=float), 2)
+    pa, pb, px, py = epred.shape
+    meta = {"shape": list(epred.shape), "family": "product_reps2", "base_shape": list(shape), "pred_kind": kind, "enumerated": "alice" if pa**px < pb**py else "bob", "strategies": min(pa**px, pb**py), "_ctor": ("reps", prob, pred, reps)}
+    if dt is not None:
+        meta["pred_dtype"] = dt
+    return eprob, epred, meta
+
+
+def draw_bcs_pool_game(st):
+    """from_bcs_game over 10..11 binary variables: Bob (one bit per variable question) has 2**n > 1000
+    strategies and is the enumerated player; Alice answers with a full assignment."""
+    n = 10 + (st.draw(4) == 0)
+    m = st.int_range(2, 4)
+    rng = st.nprng()
+    cons = []
+    kind = st.weighted([("frustrated_parity", 3), ("random_local", 3)])
+    vars_used, parities = [], []
+    idx = np.indices((2,) * n)
+    for j in range(m):
+        k = st.int_range(1, 3)
+        repeat = kind == "frustrated_parity" and j > 0 and st.draw(2)
+        if repeat:
+            src = st.draw(len(vars_used))
+            vs = list(vars_used[src])  # the same variables again with the other parity: not both satisfiable
+        else:
+            vs = sorted(int(v) for v in rng.choice(n, size=k, replace=False))
+        if kind == "frustrated_parity":
+            want = 1 - parities[src] if repeat else st.draw(2)
+            parities.append(want)
+            c = ((sum(idx[v] for v in vs) % 2) == want).astype(float)
+        else:
+            parities.append(None)
+            while True:
+                tt = (rng.random((2,) * len(vs)) < 0.5).astype(float)
+                if 0 < tt.sum() < tt.size:
+                    break
+            c = tt[tuple(idx[v] for v in vs)]
+        vars_used.append(vs)
+        if st.draw(3) == 0:
+            c = np.asfortranarray(c)
+        cons.append(c)
+    from .c07_hist import bcs_model
+
+    eprob, epred = bcs_model([np.ascontiguousarray(c) for c in cons])
+    meta = {"shape": list(epred.shape), "family": "bcs_pool", "variables": n, "constraints": m, "constraint_variables": vars_used, "pred_kind": kind, "enumerated": "bob", "strategies": 2**n, "_ctor": ("bcs", cons)}
+    return eprob, epred, meta
+
+
+def build_constructed(M, res, eprob, epred, meta):
+    """Build the object through its constructor and judge the constructor clause on it (the same invariants
+    engine B applies to small games); returns (game, stored prob copy, stored pred copy) or None."""
+    ctor = meta["_ctor"]
+    pub = {k: v for k, v in meta.items() if not k.startswith("_")}
+    inv = "C07.ctor.reps" if ctor[0] == "reps" else "C07.ctor.bcs"
+    try:
+        if ctor[0] == "reps":
+            game = M.NonlocalGame(np.array(ctor[1]), np.array(ctor[2]), ctor[3])
+        else:
+            game = M.NonlocalGame.from_bcs_game([c.copy(order="K") for c in ctor[1]], 1)
+    except Exception as e:
+        res.violate(inv, why="constructor raised on a valid game", exc=type(e).__name__, msg=str(e)[:200], **pub)
+        return None
+    res.checks_workload += 1
+    res.probe("pool_game_from_constructor:" + ctor[0])
+    if np.shape(game.prob_mat) != eprob.shape or np.shape(game.pred_mat) != epred.shape or not np.allclose(game.prob_mat, eprob, atol=1e-12) or not np.allclose(game.pred_mat, epred, atol=1e-12):
+        res.violate(inv, why="stored tensors differ from the %s" % ("r-fold product formula" if ctor[0] == "reps" else "BCS definition"), **pub)
+        return None
+    return game, np.array(game.prob_mat, copy=True), np.array(game.pred_mat, copy=True)
 
 
 MEDIUM_SHAPES = [(2, 9), (3, 6), (5, 4), (7, 3), (9, 3), (31, 2), (2, 8), (3, 5), (6, 3)]
